@@ -4,4 +4,5 @@ import Proofs.C09
 import Proofs.C12
 import Proofs.C13
 import Proofs.C17
+import Proofs.C18
 import Proofs.C20
